@@ -38,7 +38,10 @@ SAFE_STR = {
 }
 GENERIC_STR = [
     "abc", "x_y", "Greys", "dotted", "png", "pdf", "best", "xz", "upper left",
-    "jet", "m", "km", ":", "sans-serif", "0.5a", "tab10", "none_", "v2"
+    "jet", "m", "km", ":", "sans-serif", "0.5a", "tab10", "none_", "v2",
+    # matplotlib line styles (two of them are shipped defaults) and other
+    # values that start with a dash without being numbers or options
+    "--", "-.", "-", "-x", "--foo"
 ]
 NUM_TOKENS = [
     "0", "1", "2", "7", "10", "205", "0.5", "1.5", "2.25", "1e3", "1.5e-3",
